@@ -1370,7 +1370,7 @@ class Interp:
             if attr not in obj.f and not obj.f.get('__open__'):
                 self.oos(f'unknown field {obj.cls}.{attr}', node)
             cur = obj.f.get(attr)
-            obj.f[attr] = self.coerce_like(cur, v, node)
+            obj.f[attr] = v if isinstance(v, FuncVal) else self.coerce_like(cur, v, node)
             return
         if isinstance(obj, ZRec):
             cur = S.rec_get(obj.get(), attr)
